@@ -50,7 +50,7 @@ struct Addr {
 
 // ---------------------------------------------------------------- scenario
 enum StepKind { ST_CONNECT, ST_SEND, ST_EXPECT, ST_AWAIT, ST_LABEL, ST_WAIT, ST_SHUTDOWN, ST_CLOSE, ST_RESET,
-                ST_STALL, ST_READPACE, ST_READSTOP, ST_READRESUME, ST_NEXT, ST_SIGNAL };
+                ST_STALL, ST_READPACE, ST_READSTOP, ST_READRESUME, ST_NEXT, ST_SIGNAL, ST_SET };
 enum ExpectKind { EX_HEAD, EX_BODY, EX_RESPONSE, EX_RESPONSE_NOBODY, EX_BYTES, EX_EOF, EX_LINE, EX_CHUNKED, EX_ICAP, EX_ANY };
 enum SegMode { SEG_RAND, SEG_WHOLE, SEG_BYTE, SEG_AT };
 
@@ -59,7 +59,7 @@ struct Step {
     // connect
     Addr addr;
     // send
-    Bytes data; SegMode seg = SEG_RAND; uint64_t segMax = 0; std::vector<uint64_t> segAt; uint64_t paceLo = 0, paceHi = 0;
+    Bytes data; SegMode seg = SEG_RAND; uint64_t segMax = 0; std::vector<uint64_t> segAt; uint64_t paceLo = 0, paceHi = 0; bool subst = false;
     // expect
     ExpectKind ex = EX_ANY; uint64_t n = 0; uint64_t timeoutUs = 0; bool soft = false;
     // await/label
@@ -76,6 +76,7 @@ struct Rule {
     int maxUses = -1; // -1 = unlimited
     int uses = 0;
     std::vector<Bytes> has, nothas;
+    std::vector<std::pair<std::string, std::string>> when; // all (var, value) pairs must hold
     Steps steps;
     // helper rules
     Bytes reply; uint64_t delayUs = 0; uint64_t frag = 0; std::string chan = "same";
@@ -143,6 +144,8 @@ extern Scenario g_scn;
 extern bool g_active;          // simulation armed (scenario loaded)
 void endRun(const char *reason, int code = 0) __attribute__((noreturn));
 void setFlag(const std::string &f);
+void setVar(const std::string &k, const std::string &v);
+std::string getVar(const std::string &k);
 bool flagSet(const std::string &f);
 
 // engines S and H register themselves here; called from the first (S) / every (H) epoll_wait
